@@ -383,6 +383,12 @@ func (e *Engine) verifapi(fr *frame, fn *ssa.Function, a []Value) Value {
 	switch fn.Name() {
 	case "init":
 		return nil
+	case "CorpusCount":
+		return int64(len(corpusSelection()))
+	case "CorpusSource":
+		return corpusSelection()[e.concreteInt(a[0], "corpus index")].src
+	case "CorpusName":
+		return strings.TrimSuffix(strings.TrimPrefix(corpusSelection()[e.concreteInt(a[0], "corpus index")].name, "./"), ".rb")
 	case "Source":
 		return e.source
 	case "FileName":
